@@ -220,3 +220,39 @@ func (s *MSpec) Expand(path []string, filter func(v *Violation) bool) (succ []MS
 	}
 	return succ, key, true, execs
 }
+
+// TraceRun rebuilds the state reached by path, runs the drain probe and the
+// end-of-run oracles, and prints every action executed (environment actions,
+// worker closures, default answers) with the messaging traffic and the frames
+// each connection received.
+func (s *MSpec) TraceRun(path []string, out func(format string, a ...interface{})) {
+	w, ok := s.build(path)
+	if !ok {
+		out("path could not be replayed\n")
+	}
+	mark := len(w.Trace)
+	if ok && w.Drain(3000) {
+		w.End()
+	}
+	log := w.MQ.Log()
+	for i, a := range w.Trace {
+		if i == mark {
+			out("      -- drain probe --\n")
+		}
+		out("%3d   %s\n", i+1, a)
+		for _, r := range log {
+			if r.Time == i+1 {
+				out("        mq  %-5s %s %s\n", r.Kind, r.Subject, r.Payload)
+			}
+		}
+	}
+	for _, c := range w.Conns {
+		for _, f := range c.Frames {
+			out("  %s <- %s\n", c.Label, w.Canon(string(f)))
+		}
+	}
+	for _, v := range w.Viol {
+		out("VERDICT %s %s: %s\n", v.Prop, v.Kind, v.Msg)
+	}
+	w.Close()
+}
